@@ -9,7 +9,7 @@ from ..flow import (Ref, Param, LoopVar, Elt, Phi, Sym, FuncRef, FuncFlow, strip
                     deep_walk)
 from ..model import AnalysisError, unparse, walk_no_nested
 from .common import (root_of_expr, path_from_param, dominates, const_value, gate_with, floor, call_name, is_call_to)
-from .c03 import contents_stores, is_attr, same_object, is_items_of_contents
+from .c03 import contents_stores, is_attr, same_object, is_items_of_contents, is_old_entry, strip_zero_norm
 
 PRIMS = ('transfer', '_transfer', '_transfer_slice')
 
@@ -19,7 +19,7 @@ def run(ctx):
     n = result_threading(ctx)
     from .c08 import writeback_origin
     writeback_origin(ctx, 'C01.R2')
-    floor(ctx, 'call sites of pairwise transfer primitives', n, 10)
+    floor(ctx, 'call sites of pairwise transfer primitives', n, 5)
     writeback_locality(ctx)
     ownership(ctx)
     alias_writeback(ctx)
@@ -54,6 +54,9 @@ def symmetric_update(ctx):
     # the loop ranges over all items of the container that is subtracted from, without a filter
     plus, minus, other = [], [], []
     for stmt, obj, okey, value, rt, before in stores:
+        value = strip_zero_norm(value)
+        while isinstance(value, Ref) and not isinstance(value.value, Phi):
+            value = value.value          # a temporary holding the whole new entry (`remaining = round(old - moved)`)
         leaves = signed_leaves(value, follow=False)
         moved = [(s, l) for s, l in leaves if s in (1, -1) and not _is_old_entry(l, rt)]
         if const_value(value) is not None and not moved:
@@ -130,13 +133,7 @@ def _loop_entry_extra(state):
 
 
 def _is_old_entry(leaf, rt):
-    l = strip_refs(leaf)
-    if isinstance(l, ast.Call) and isinstance(l.func, ast.Attribute) and l.func.attr == 'get' and \
-            is_attr(l.func.value, 'contents') and same_object(l.func.value.value, rt.value.value):
-        return same_value(l.args[0], rt.slice) and const_value(l.args[1]) == 0 if len(l.args) == 2 else False
-    if isinstance(l, ast.Subscript) and is_attr(l.value, 'contents') and same_object(l.value.value, rt.value.value):
-        return same_value(l.slice, rt.slice)
-    return False
+    return is_old_entry(leaf, rt)
 
 
 def _round_sig(value):
@@ -370,7 +367,10 @@ def writeback_locality(ctx):
             if isinstance(n, ast.Subscript) and path_from_param(n.value) == ('self', ['array']):
                 reads.append((ast.Call(func=ast.Attribute(value=n.value, attr='__getitem__', ctx=ast.Load()), args=[n.slice], keywords=[]), None, None))
     maps = [(c, s, b) for c, s, b in fg.calls if isinstance(c.func, ast.Name) and c.func.id == 'map']
-    ok = all(path_from_param(c.args[0]) == ('self', ['slices']) for c, s, b in reads) and \
+    def _sel_key(k):
+        kk = strip_refs(k)
+        return path_from_param(k) == ('self', ['slices']) or (isinstance(kk, LoopVar) and _iter_is_slices(kk.iter))
+    ok = all(_sel_key(c.args[0]) for c, s, b in reads) and \
         all(len(c.args) == 2 and path_from_param(c.args[1]) == ('self', ['slices']) for c, s, b in maps) and \
         bool(reads or maps)
     ctx.ob('C01.R3', g, g.node.lineno, 'Slicer.get reads exactly the stored selection (same keys as apply/set)', ok,
@@ -476,7 +476,7 @@ def alias_writeback(ctx):
             for fid, f_ in b.facts.items():
                 if fid in pre_alias or not f_.exc:
                     continue
-                mentions = all(any(isinstance(x, Ref) and x.name == r for x in deep_walk(f_.test)) for r in roots)
+                mentions = _mentions_all(f_.test, roots)
                 t0 = f_.test
                 while isinstance(t0, ast.UnaryOp):
                     t0 = t0.operand
@@ -493,7 +493,7 @@ def alias_writeback(ctx):
             for later in blk[idx + 1:]:
                 if isinstance(later, ast.If) and later.body and isinstance(later.body[-1], ast.Raise) and id(later) in fft.resolved:
                     t = fft.resolved[id(later)]
-                    mentions = all(any(isinstance(x, Ref) and x.name == r for x in deep_walk(t)) for r in roots)
+                    mentions = _mentions_all(t, roots)
                     t0 = t
                     while isinstance(t0, ast.UnaryOp):
                         t0 = t0.operand
@@ -508,6 +508,16 @@ def alias_writeback(ctx):
                why='for overlapping source and destination regions of one plate the second write-back overwrites '
                    'the first (material is created)', key='shared plate write-back')
     ctx.count('shared_plate_aliases', len(shared))
+
+
+def _mentions_all(test, roots):
+    """Does the resolved test read every one of the objects `roots` (the variable itself or anything below it)?"""
+    seen = set()
+    for x in deep_walk(test):
+        for k in (x.name if isinstance(x, Ref) else None, getattr(x, 'pkey', None)):
+            if k:
+                seen.add(k.split('.')[0].split('[')[0])
+    return all(r in seen for r in roots)
 
 
 def _declaration_gate(ctx):
